@@ -114,9 +114,11 @@ func (bq *Queue[Q]) Run() {
 			}
 
 			err := bq.chain.AddItem(b)
+			refused := false
 			if err != nil {
 				// The element might already be added by the consensus.
 				if bq.chain.Height() < b.GetIndex() {
+					refused = true
 					bq.log.Warn("queue: failed to add item into the blockchain",
 						zap.Uint32("index", b.GetIndex()),
 						zap.Uint32("chainHeight", bq.chain.Height()),
@@ -130,6 +132,10 @@ func (bq *Queue[Q]) Run() {
 			if bq.queue[pos] == b {
 				bq.queue[pos] = bq.nilQ
 				bq.len--
+			}
+			if refused && bq.lastQ >= b.GetIndex() {
+				// The refused element is gone and has to be requested again.
+				bq.lastQ = b.GetIndex() - 1
 			}
 			l := bq.len
 			bq.queueLock.Unlock()
